@@ -1438,16 +1438,12 @@ seq_t dtw_warping_paths_ndim_euclidean(seq_t *wps,
     DTWWps p = dtw_wps_parts(l1, l2, settings);
     if (settings->use_pruning || settings->only_ub) {
         if (ndim == 1) {
-            p.max_dist = ub_euclidean(s1, l1, s2, l2);
+            p.max_dist = ub_euclidean_euclidean(s1, l1, s2, l2);
         } else {
-            p.max_dist = ub_euclidean_ndim(s1, l1, s2, l2, ndim);
+            p.max_dist = ub_euclidean_ndim_euclidean(s1, l1, s2, l2, ndim);
         }
         if (settings->only_ub) {
-            if (keep_int_repr) {
-                return p.max_dist;
-            } else {
-                return sqrt(p.max_dist);
-            }
+            return p.max_dist;
         }
     }
 
